@@ -1,10 +1,12 @@
 \* LspSession: exhaustive check of the life cycle (view without the history)
 CONSTANTS
-  Texts = {"t1", "t2", "t3"}
+  Docs = {"hello", "other"}
+  Texts = {"t1", "t2"}
   OpenRule = "replace"
-  HistLen = 6
+  HistLen = 7
 INIT Init
 NEXT Next
 VIEW View
-INVARIANTS ServerTracksEditor NoCopyWhenClosed
+INVARIANTS ServerTracksEditor
+PROPERTIES Independent
 CHECK_DEADLOCK FALSE
